@@ -289,6 +289,22 @@ def catalogue_c16(tier):
     return cs
 
 
+def catalogue_c14(tier):
+    """C14 for the time-driven sources / operators: the same observable value subscribed twice (at different times for the cold
+    sources); each subscriber is judged by the timed definition of C16 for its own subscription"""
+    U2 = {'op': 'unsub', 'u': 2}
+    SUB2 = {'op': 'sub', 'u': 2}
+    cs = []
+    for d in ([100] if tier == 'quick' else [100, 150]):
+        cs += [timed(case('c14/interval-%d-twice' % d, T('interval', d), [[SL(d + d // 2), SUB2, SL(2 * d + d // 4), UNSUB1, SL(d + 20), U2, SL(3 * d)]], tags=['interval', 'twice']), d),
+               timed(case('c14/timer-%d-twice' % d, T('timer', d, b=7), [[SL(d // 2), SUB2, SL(3 * d)]], tags=['timer', 'twice']), d),
+               timed(case('c14/timer-%d-twice-first-leaves' % d, T('timer', d, b=7), [[SL(d // 2), SUB2, SL(d // 4), UNSUB1, SL(3 * d)]], tags=['timer', 'twice']), d),
+               timed(case('c14/timeout-%d-twice-fires' % d, T('timeout', d, ins=[S(1)]), [[E(1, 'n', 11), SL(40), E(1, 'n', 12), SL(260)]], pre=[SUB1[0], SUB2], tags=['timeout', 'twice']), d),
+               timed(case('c14/timeout-%d-twice-quiet' % d, T('timeout', d, ins=[S(1)]), [[E(1, 'n', 11), SL(40), E(1, 'n', 12), SL(40), E(1, 'c'), SL(300)]], pre=[SUB1[0], SUB2], tags=['timeout', 'twice']), d),
+               timed(case('c14/timeout-%d-twice-second-joins-late' % d, T('timeout', d, ins=[S(1)]), [[E(1, 'n', 11), SL(40), SUB2, SL(20), E(1, 'n', 12), SL(260)]], tags=['timeout-slow', 'twice']), d)]
+    return cs
+
+
 def catalogue_c07(tier):
     """multi-thread part of C07: every construct that owns shared state x thread patterns; the monitor is the runtime's verdict
     (every call returned, every thread finished or is legitimately parked on a scheduler's condition variable)"""
@@ -350,7 +366,7 @@ def catalogue_c13(tier):
     return cs
 
 
-CATALOGUES = {'C04': catalogue_c04, 'C07': catalogue_c07, 'C13': catalogue_c13, 'C08': catalogue_c08, 'C09': catalogue_c09, 'C15': catalogue_c15, 'C16': catalogue_c16, 'C18': catalogue_c18, 'C19': catalogue_c19, 'C05': catalogue_c05, 'C11': catalogue_c11, 'C12': catalogue_c12}
+CATALOGUES = {'C04': catalogue_c04, 'C14': catalogue_c14, 'C07': catalogue_c07, 'C13': catalogue_c13, 'C08': catalogue_c08, 'C09': catalogue_c09, 'C15': catalogue_c15, 'C16': catalogue_c16, 'C18': catalogue_c18, 'C19': catalogue_c19, 'C05': catalogue_c05, 'C11': catalogue_c11, 'C12': catalogue_c12}
 
 
 # ------------------------------------------------------------------------------------------ engine
